@@ -123,16 +123,20 @@ var registerAPI = func(service server.Server, a *Auth) error {
 	return err
 }
 
+// passwordFile returns the path of the password file:
+// config.PasswordFile, relative to the configuration directory unless it is absolute.
+func (a *Auth) passwordFile() string {
+	if path.IsAbs(a.config.PasswordFile) {
+		return a.config.PasswordFile
+	}
+	return path.Join(a.pwdDir, a.config.PasswordFile)
+}
+
 func (a *Auth) Load(service server.Server) error {
 	err := registerAPI(service, a)
 	log = server.LoggerWithField(zap.String("plugin", Name))
 
-	var pwdFile string
-	if path.IsAbs(a.config.PasswordFile) {
-		pwdFile = a.config.PasswordFile
-	} else {
-		pwdFile = path.Join(a.pwdDir, a.config.PasswordFile)
-	}
+	pwdFile := a.passwordFile()
 	f, err := os.OpenFile(pwdFile, os.O_CREATE|os.O_RDONLY, 0666)
 	if err != nil {
 		return err
